@@ -95,6 +95,8 @@ def modes_for(sdir):
         "t-console": ["test", "-d", T],
         "t-console-verbose": ["test", "-r", os.path.join(T, "r1.guard"), "-t", os.path.join(T, "tests", "r1_tests.json"), "-v"],
         "rulegen": ["rulegen", "-t", os.path.join(sdir, "d", "d0.json")],
+        "v-tf-console": ["validate", "-r", os.path.join(sdir, "tf.guard"), "-d", os.path.join(sdir, "tf")],
+        "v-tf-console-all": ["validate", "-r", os.path.join(sdir, "tf.guard"), "-d", os.path.join(sdir, "tf"), "-S", "all", "-v"],
         "fn-epoch-s-json": ["validate", "-r", os.path.join(sdir, "fn1.guard")] + D + ["--structured", "-S", "none", "-o", "json"],
         "fn-epoch-console": ["validate", "-r", os.path.join(sdir, "fn1.guard")] + D + ["-S", "all"],
         "fn-misc-s-yaml": ["validate", "-r", os.path.join(sdir, "fn2.guard")] + D + ["--structured", "-S", "none", "-o", "yaml"],
@@ -134,6 +136,18 @@ def build_inputs(rng, sdir):
         t = gen.pfile(f)
         texts.append(t)
         open(os.path.join(sdir, "r%d.guard" % i), "w").write(t)
+    # Terraform-plan-shaped documents (the console reporter has a separate view for them): >= 3 non-compliant resources each
+    os.makedirs(os.path.join(sdir, "tf"))
+    for i in range(2):
+        d = gen.gen_tf_doc(rng, nres=rng.randint(3, 6), wellformed=True)
+        for rc_ in d["resource_changes"]:
+            rc_["change"]["after"]["acl"] = rng.choice(["public", "open"])
+            rc_["change"]["after"]["n"] = rng.randint(3, 9)
+        open(os.path.join(sdir, "tf", "plan%d.json" % i), "w").write(json.dumps(d, indent=1))
+    open(os.path.join(sdir, "tf.guard"), "w").write(
+        "rule tf_acl {\n    resource_changes[*].change.after.acl in [\"private\"] <<acl>>\n}\n"
+        "rule tf_n {\n    resource_changes[*].change.after.n < 2\n    resource_changes[*].change.after.acl == \"private\" or resource_changes[*].change.after.n == 0\n}\n"
+        "rule tf_unary {\n    resource_changes[*].change.after.nosuch exists\n    resource_changes[*].change.after.acl !exists\n}\n")
     # function rules: every failure message carries the computed value, so any environment dependence reaches the bytes
     open(os.path.join(sdir, "fn1.guard"), "w").write(
         "rule fn_epoch {\n    let e = parse_epoch(when)\n    %e < 1000 <<epoch>>\n    %e > 1724198400\n}\n")
@@ -226,6 +240,9 @@ def shard(ctx):
                     ctx.inconclusive("timeout")
                     continue
                 ctx.res.cases += 1
+                if batch is None and not out.strip():
+                    ctx.res.counts["earlier-files:error-run-without-output"] += 1      # an evaluation error ends the run without a report
+                    continue
                 if batch is None:
                     ctx.inconclusive("units-unparsable:" + fmt)
                     continue
@@ -271,7 +288,7 @@ def units_of(fmt, out):
     try:
         import yaml
         reps = json.loads(text) if fmt == "json" else yaml.safe_load(text)
-        return {r["name"]: json.dumps(r, sort_keys=True) for r in reps}
+        return {r["name"]: json.dumps(r, sort_keys=True, default=str) for r in reps}
     except Exception:
         return None
 
@@ -329,11 +346,11 @@ def main(tier, seed):
     core.build(need_cli=True)
     res = core.run_shards(shard, seed, tier, "C05")
     mo = res.extra.get("modes_with_output", set())
-    floor = {"cases": (res.cases, 500), "modes_with_nonempty_output": (len([m for m in mo if not m.endswith(":EMPTY")]), 22),
+    floor = {"cases": (res.cases, 500), "modes_with_nonempty_output": (len([m for m in mo if not m.endswith(":EMPTY")]), 24),
              "in_process_repetitions": (res.counts["in_process_repetitions"], 200),
              "earlier_file_units_compared": (res.counts["earlier_file_units_compared"], 150)}
     return core.finish("C05", tier, seed, res, t0,
-                       rule="generated inputs (2 rules files with >=3 rules each, 3 CloudFormation-shaped documents, a test spec) x 22 command/output modes (4 of them function rules: parse_epoch on 12 timestamp spellings incl. zone-less and DST-gap ones, case mapping, conversions, join/regex_replace), each "
+                       rule="generated inputs (2 rules files with >=3 rules each, 3 CloudFormation-shaped documents, a test spec) x 24 command/output modes (2 on Terraform-plan-shaped data, 4 of them function rules: parse_epoch on 12 timestamp spellings incl. zone-less and DST-gap ones, case mapping, conversions, join/regex_replace), each "
                             "run N=5 (quick) / 8 (thorough) times as a fresh process under rotated environments and cwd, plus 5 in-process repetitions of 3 "
                             "payload modes, plus per-data-file units of structured json/yaml/junit/sarif batches vs the same file validated alone (nothing evaluated earlier); distinct = (mode, output size bucket, exit code)",
                        floor=floor,
